@@ -32,7 +32,7 @@ def _run_task(args):
         frontier = []
         r = explore(_W, h, max_paths=budget, prefix=prefix, frontier=frontier,
                     panic_is_violation=opts.get('panic_is_violation', True),
-                    step_limit=opts.get('step_limit', 400000))
+                    step_limit=opts.get('step_limit', 400000), split_after=opts.get('split_after', 6))
         used_f = {f.name: _W.prog.fingerprint(f) for f in _W.used_functions.values()}
         used_m = sorted(_W.used_models)
         return (name, r, frontier, used_f, used_m, None)
